@@ -448,6 +448,9 @@ func (s *Specs) contractFor(pkgPath, fn string) *Contract {
 		if _, only := c.option("verify-only"); only {
 			continue // a scenario contract: verified, never used in place of the body
 		}
+		if _, seq := c.option("seq"); seq {
+			continue // sequence-mode contracts are applied by the sequence-mode executor only
+		}
 		if strings.HasSuffix(pkgPath, c.Pkg) && c.target() == fn && !c.sweepOnly() {
 			return c
 		}
